@@ -35,6 +35,10 @@ def row(name, op, resources=None, setup=(), helpers=(), between=("mark+", "mark-
             "helpers": list(helpers), "between": between, "spin_after": spin_after}
 
 
+#: rows that show a listed finding (F35): not part of the table, re-demonstrated by the probe
+KNOWN_ROWS = []
+
+
 def table():
     rows = []
     flag_on = {"F": {"kind": "flag", "init": True}}
@@ -157,9 +161,10 @@ def table():
                     {"op": "scope", "label": "S", "children": [], "body": [],
                      "until": {"k": "flag", "n": "F"}}, flag_on, between=("scope.body-", "scope-")))
     late = {"op": "spawn", "into": "root", "actor": {"name": "late", "ops": [{"op": "now"}]}}
-    rows.append(row("leave until(set flag) whose body made an activity runnable",
-                    {"op": "scope", "label": "S", "children": [], "body": [late],
-                     "until": {"k": "flag", "n": "F"}}, flag_on, between=("scope.body-", "scope-")))
+    KNOWN_ROWS.append(row("leave until(set flag) whose body made an activity runnable",
+                          {"op": "scope", "label": "S", "children": [], "body": [late],
+                           "until": {"k": "flag", "n": "F"}}, flag_on,
+                          between=("scope.body-", "scope-")))
     rows.append(row("leave Scope whose body made an activity runnable",
                     {"op": "scope", "label": "S", "children": [], "body": [late]},
                     between=("scope.body-", "scope-")))
@@ -172,8 +177,8 @@ def table():
 TABLE = table()
 
 
-def build(index, rng):
-    spec = TABLE[index % len(TABLE)]
+def build(index, rng, spec=None):
+    spec = spec or TABLE[index % len(TABLE)]
     actors = []
     for helper in spec["helpers"]:
         actors.append(dict(helper))
@@ -291,3 +296,17 @@ def observe(rec):
            tuple(len(a["ops"]) for a in rec.case["scenario"]["actors"]),
            rec.case["config"].get("waitq"))
     return {"stats": stats, "signature": sig, "nontrivial": True}
+
+
+def probe_finding(finding):
+    """F35: leaving an until-block through its own, long queued interrupt completes before
+    activities that the body made runnable got their turn."""
+    if finding["id"] != "F35":
+        return False
+    import random
+    from ..world import execute, cleanup
+    rec = execute(build(0, random.Random(7), spec=KNOWN_ROWS[0]))
+    try:
+        return any(v["rule"] == "C20/no-yield" for v in check(rec))
+    finally:
+        cleanup(rec)
